@@ -36,19 +36,26 @@ def run(prop, tier, rep):
     present = {}
     for o in obs:
         backend = "cpython-exec-on-opaque-parts"
-        if o.get("bounded"):
-            rep.bounded.append(dict(obligation=o["id"], bound=o["bounded"], ok=o["ok"]))
+        bounded = o.get("bounded")
         for h in o.get("known_hits", []) or []:
             present.setdefault(h, []).append(o["id"])
-        if o["ok"]:
+        rec = cf.get(o["id"])
+        known = (not o["ok"]) and rec is not None and rec["recorded_actual"] == o["actual"]
+        if known:
+            present.setdefault(rec["finding"], []).append(o["id"])
+        if bounded:
+            # a bounded stand-in: reported, can raise a violation, but never counted among the discharged obligations
+            rep.bounded.append(dict(check=prop + "/" + o["id"], bound=bounded, held=bool(o["ok"] or known), known_finding=rec["finding"] if known else None))
+            if o["ok"] or known:
+                continue
+        elif o["ok"]:
             rep.add_obligation(prop + "/" + o["id"], "proved", backend, 0.0, o.get("detail", ""))
             continue
-        rec = cf.get(o["id"])
-        if rec is not None and rec["recorded_actual"] == o["actual"]:
-            present.setdefault(rec["finding"], []).append(o["id"])
+        elif known:
             rep.add_obligation(prop + "/" + o["id"], "proved", "known-finding(recorded defective output, unchanged)", 0.0, o.get("detail", ""))
             continue
-        rep.add_obligation(prop + "/" + o["id"], "refuted", backend, 0.0, o.get("detail", ""))
+        else:
+            rep.add_obligation(prop + "/" + o["id"], "refuted", backend, 0.0, o.get("detail", ""))
         rep.violation(prop + "/" + o["id"], dict(detail=o.get("detail", ""), expected=o["expected"], actual=o["actual"],
                                                  recorded_known_output=rec["recorded_actual"] if rec else None,
                                                  how="the real method of the tree under test was executed on opaque parts; "
